@@ -880,6 +880,63 @@ theorem C06_select_qualifier_terminates (u : List Nat) (h : Hier) (hc : Closed u
   have hm : selectSearchMarkStable = true := by decide
   rw [hm]; exact visit_terminates u h hc marked e he
 
+/-! ## interface resolution over the USE graph -/
+
+theorem renameSearchList_ok (u : List Nat) (h : Hier) (fuel : Nat) (path : List Nat)
+    (IH : ∀ c, c ∈ u → ∃ r, renameSearch true h fuel path c = some r) :
+    ∀ (cs : List Nat), (∀ c, c ∈ cs → c ∈ u) → ∃ r, renameSearchList true h fuel path cs = some r := by
+  intro cs
+  induction cs with
+  | nil => intro _; exact ⟨false, by simp [renameSearchList]⟩
+  | cons c rest ih =>
+    intro hu
+    obtain ⟨r1, h1⟩ := IH c (hu c List.mem_cons_self)
+    obtain ⟨r2, h2⟩ := ih (fun y hy => hu y (List.mem_cons_of_mem _ hy))
+    exact ⟨r2, by simp [renameSearchList, h1, h2]⟩
+
+theorem renameSearch_ok (u : List Nat) (h : Hier) (hc : Closed u h) :
+    ∀ (fuel : Nat) (path : List Nat) (s : Nat), s ∈ u → unmarked u path + 1 ≤ fuel →
+      ∃ r, renameSearch true h fuel path s = some r := by
+  intro fuel
+  induction fuel with
+  | zero => intro path s _ hf; omega
+  | succ fuel IH =>
+    intro path s hs hf
+    by_cases hp : s ∈ path
+    · exact ⟨false, by simp [renameSearch, hp]⟩
+    · have hlt := unmarked_lt u path s hs hp
+      obtain ⟨r, hr⟩ := renameSearchList_ok u h fuel (s :: path)
+        (fun c hcu => IH (s :: path) c hcu (by omega)) (h s) (hc s hs)
+      exact ⟨r, by simp [renameSearch, hp, hr]⟩
+
+theorem renameSearch_unguarded_cycle2 : ∀ (fuel : Nat) (path : List Nat) (s : Nat), s < 2 →
+    renameSearch false (fun i => [1 - i]) fuel path s = none := by
+  intro fuel
+  induction fuel with
+  | zero => intro path s _; simp [renameSearch]
+  | succ n ih =>
+    intro path s hs
+    have : 1 - s < 2 := by omega
+    simp [renameSearch, renameSearchList, ih (s :: path) (1 - s) this]
+
+/-- **C06, `SCOPEfind_for_rename`**: the look-up behind `USE FROM s (item)` / `REFERENCE FROM s (item)` returns on every
+graph of whole-schema USE clauses — self-imports, 2- and 3-cycles, any cycle — also for a name that no schema declares
+(the worst case: every reachable schema is searched); depends on the regenerated fact that a schema already on the call
+chain is not entered again.  Fuel `|schemas| + 1` suffices: the call chain never holds a schema twice. -/
+theorem C06_rename_search_terminates (u : List Nat) (h : Hier) (hc : Closed u h) (s : Nat) (hs : s ∈ u) :
+    ∃ r, renameSearch renameSearchPathGuard h (u.length + 1) [] s = some r := by
+  have hg : renameSearchPathGuard = true := by decide
+  rw [hg]
+  have hu : unmarked u [] + 1 ≤ u.length + 1 := by
+    have : unmarked u [] ≤ u.length := by unfold unmarked; exact List.length_filter_le _ _
+    omega
+  exact renameSearch_ok u h hc (u.length + 1) [] s hs hu
+
+/-- the tree before `fix: C06-30`: two schemas that USE each other and a name neither declares — the look-up never
+returns, whatever the fuel -/
+theorem C06_rename_search_unguarded_witness (fuel : Nat) : renameSearch false (fun i => [1 - i]) fuel [] 0 = none :=
+  renameSearch_unguarded_cycle2 fuel [] 0 (by omega)
+
 /-! ## nesting depth -/
 
 theorem Tree.height_pos (t : Tree) : 1 ≤ t.height := by
